@@ -4,7 +4,8 @@
    (every Use preceded by its Def), every call made in a JavaScript factory targets a function, the Python
    module defines (and the decorator registers) one class per message, JavaScript factory results share no object.
 
-   C15_total, C15_js_fresh hold in full (after the fixes 55760b3, f7d117e, 4581550, 35347c0, cf903f5 in /repo).
+   C15_total, C15_js_fresh hold in full (after the fixes 55760b3, f7d117e, 4581550, 35347c0, cf903f5 in /repo);
+   the MATLAB statement no longer needs the core definitions (3dda184).
    The scoping statements (over every accepted closure) are still false of the current code for the emission-order
    construct classes; each is kept as `*_refuted` (witness by vm_compute, replayed on the real loaders by
    vlib/props/C15.py) next to a `*_partial` theorem under a decidable exclusion naming the construct class. *)
@@ -43,10 +44,10 @@ Theorem C15_scoped_c_partial : forall ap l st, parse_items ap l = POk st ->
   no_alias_of_struct st = true -> no_msg_in_struct st = true -> scoped [] (events_c st) = true.
 Proof. intros ap l st H. apply scoped_c. exact (parsed_inv _ _ _ H). Qed.
 
-(* MATLAB: the script always reads RTMA.typedefs.RTMA_MSG_HEADER (defined by the core definitions) *)
+(* MATLAB: the script reads RTMA.typedefs.RTMA_MSG_HEADER only when a typedef of that name is emitted (3dda184);
+   no exclusion for closures without the core definitions any more *)
 Theorem C15_scoped_matlab_partial : forall ap l st, parse_items ap l = POk st ->
-  no_alias_of_struct st = true -> no_msg_in_struct st = true -> has_msg_header st = true ->
-  scoped [] (events_matlab st) = true.
+  no_alias_of_struct st = true -> no_msg_in_struct st = true -> scoped [] (events_matlab st) = true.
 Proof. intros ap l st H. apply scoped_matlab. exact (parsed_inv _ _ _ H). Qed.
 
 (* JavaScript: the module imports, and every call inside a factory targets a function (type_map.<native>,
@@ -99,10 +100,17 @@ Example C15_js_alias_field_ok : exists st,
   js_factory st (JSdf "S1") = (true, true).
 Proof. eexists. repeat split; vm_compute; reflexivity. Qed.
 
-Theorem C15_scoped_refuted_matlab_header : exists st,
-  parse_items true no_header_items = POk st /\ no_alias_of_struct st = true /\ no_msg_in_struct st = true /\
-  scoped [] (events_matlab st) = false.
-Proof. eexists. repeat split; vm_compute; reflexivity. Qed.
+(* without the core definitions and without a user typedef RTMA_MSG_HEADER the script has no MESSAGE_HEADER line and
+   loads; with a struct (or an alias) of that name the line is there and reads something already assigned *)
+Definition header_alias_items : list item := [IAlias "RTMA_MSG_HEADER" "int32"; IStruct "S1" (BFields [mkFd "a" "int32" None])].
+Example C15_matlab_header_only_when_defined :
+  (exists st, parse_items true no_header_items = POk st /\ has_msg_header st = false /\
+              matlab_header_events st = [] /\ scoped [] (events_matlab st) = true) /\
+  (exists st, parse_items true (no_header_items ++ [IStruct "RTMA_MSG_HEADER" (BFields [mkFd "msg_type" "int32" None])]) = POk st /\
+              matlab_header_events st = [Use NStruct "RTMA_MSG_HEADER"] /\ scoped [] (events_matlab st) = true) /\
+  (exists st, parse_items true header_alias_items = POk st /\
+              matlab_header_events st = [Use NAlias "RTMA_MSG_HEADER"] /\ scoped [] (events_matlab st) = true).
+Proof. repeat split; eexists; repeat split; vm_compute; reflexivity. Qed.
 
 (* ---------------------------------------------------------------- C15_js_fresh
    for EVERY parsed state and every successful factory call: no object is reachable twice in the result
